@@ -16,6 +16,7 @@ import (
 	"fmt"
 	"hash/crc32"
 	"io/ioutil"
+	"sync"
 
 	snappy "github.com/eapache/go-xerial-snappy"
 	"github.com/klauspost/compress/zstd"
@@ -61,6 +62,18 @@ type VBatch struct {
 }
 
 var vrCastagnoli = crc32.MakeTable(crc32.Castagnoli)
+
+// one shared zstd encoder/decoder (creating them per call costs tens of milliseconds)
+var (
+	vrZstdOnce sync.Once
+	vrZstdEnc  *zstd.Encoder
+	vrZstdDec  *zstd.Decoder
+)
+
+func vrZstdInit() {
+	vrZstdEnc, _ = zstd.NewWriter(nil, zstd.WithZeroFrames(true), zstd.WithEncoderConcurrency(1))
+	vrZstdDec, _ = zstd.NewReader(nil, zstd.WithDecoderConcurrency(1))
+}
 
 var errVRShort = errors.New("ref: short data")
 
@@ -118,38 +131,62 @@ func vrDecompress(codec int8, data []byte) ([]byte, error) {
 	case 3:
 		return ioutil.ReadAll(lz4.NewReader(bytes.NewReader(data)))
 	case 4:
-		d, err := zstd.NewReader(nil)
-		if err != nil {
-			return nil, err
-		}
-		defer d.Close()
-		return d.DecodeAll(data, nil)
+		vrZstdOnce.Do(vrZstdInit)
+		return vrZstdDec.DecodeAll(data, nil)
 	}
 	return nil, fmt.Errorf("ref: unknown codec %d", codec)
 }
 
+var (
+	vrGzipPool = sync.Pool{New: func() interface{} { return gzip.NewWriter(ioutil.Discard) }}
+	vrLz4Pool  = sync.Pool{New: func() interface{} { return lz4.NewWriter(ioutil.Discard) }}
+	vrCacheMu  sync.Mutex
+	vrCache    = map[string][]byte{}
+)
+
+// vrCompress compresses with pooled writers and a small memo (fetches are
+// repeated after partial answers and redispatches).
 func vrCompress(codec int8, data []byte) []byte {
-	var buf bytes.Buffer
-	switch codec {
-	case 0:
+	if codec == 0 {
 		return data
-	case 1:
-		w := gzip.NewWriter(&buf)
-		w.Write(data)
-		w.Close()
-	case 2:
-		return snappy.Encode(data)
-	case 3:
-		w := lz4.NewWriter(&buf)
-		w.Write(data)
-		w.Close()
-	case 4:
-		e, _ := zstd.NewWriter(nil, zstd.WithZeroFrames(true))
-		out := e.EncodeAll(data, nil)
-		e.Close()
+	}
+	key := string([]byte{byte(codec)}) + string(data)
+	vrCacheMu.Lock()
+	if out, ok := vrCache[key]; ok {
+		vrCacheMu.Unlock()
 		return out
 	}
-	return buf.Bytes()
+	vrCacheMu.Unlock()
+	var buf bytes.Buffer
+	var out []byte
+	switch codec {
+	case 1:
+		w := vrGzipPool.Get().(*gzip.Writer)
+		w.Reset(&buf)
+		w.Write(data)
+		w.Close()
+		vrGzipPool.Put(w)
+		out = buf.Bytes()
+	case 2:
+		out = snappy.Encode(data)
+	case 3:
+		w := vrLz4Pool.Get().(*lz4.Writer)
+		w.Reset(&buf)
+		w.Write(data)
+		w.Close()
+		vrLz4Pool.Put(w)
+		out = buf.Bytes()
+	case 4:
+		vrZstdOnce.Do(vrZstdInit)
+		out = vrZstdEnc.EncodeAll(data, nil)
+	}
+	vrCacheMu.Lock()
+	if len(vrCache) > 512 {
+		vrCache = map[string][]byte{}
+	}
+	vrCache[key] = out
+	vrCacheMu.Unlock()
+	return out
 }
 
 // VRefParseRecordSet parses a record set (the bytes after the int32 size of a
